@@ -283,6 +283,19 @@ func runSigCase(ta *TestApp, seed uint64, idx int, rep *Report, profile string) 
 				cert = []string{"", "certificate", "-----BEGIN CERTIFICATE-----\nAAAA\n-----END CERTIFICATE-----\n",
 					"-----BEGIN PUBLIC KEY-----\nAAAA\n-----END PUBLIC KEY-----\n"}[rng.Intn(4)]
 				rep.Count("store.certificate_field_is_no_certificate")
+			case 6: // the signature as `openssl base64` prints it: wrapped at 64 columns (the decoder skips line breaks; the record is valid)
+				if len(sig) > 64 {
+					var wrapped []string
+					for i := 0; i < len(sig); i += 64 {
+						j := i + 64
+						if j > len(sig) {
+							j = len(sig)
+						}
+						wrapped = append(wrapped, sig[i:j])
+					}
+					sig = strings.Join(wrapped, "\n")
+					rep.Count("store.signature_wrapped_at_64_columns")
+				}
 			case 4: // malformed JSON
 				fieldsOK = false
 				jsonStr = "{\"signature\": \"abc\", "
